@@ -121,6 +121,14 @@ def run_chunk(chunk):
     for lid, arrangement, files, entries, explicit_cfg in layouts(pat, old, new, tier, fmt):
         run_project(st, pat, label, old, new, fmt, lid, arrangement, files, entries, explicit_cfg)
         n += 1
+    # --set-version given in a non-canonical spelling that the pattern accepts (zero padded number)
+    import re as _re
+
+    new_text = M.render(pat.tree, new)
+    alt = _re.sub(r"(?<![0-9])([1-9][0-9]*)$", lambda m: "0" + m.group(1), new_text)
+    if alt != new_text and M.recognise(pat.tree, alt) == new:
+        for lid, arrangement, files, entries, explicit_cfg in itertools.islice(layouts(pat, old, new, tier, fmt), 3):
+            run_project(st, pat, label, old, new, fmt, lid, "set-version-respelled", files, entries, explicit_cfg, set_version=alt)
     if idx == 0:
         st.sample({"pattern": pat.text, "states": label, "format": fmt, "layouts": n})
     os.chdir("/")
@@ -143,8 +151,10 @@ def build_project(pat, old, fmt, files, entries, explicit_cfg):
     return tree, files
 
 
-def run_project(st, pat, label, old, new, fmt, lid, arrangement, files, entries, explicit_cfg, want=("occurrence",), prefix="C03"):
+def run_project(st, pat, label, old, new, fmt, lid, arrangement, files, entries, explicit_cfg, want=("occurrence",), prefix="C03", set_version=None):
     old_text, new_text = M.render(pat.tree, old), M.render(pat.tree, new)
+    if set_version is not None:
+        new_text = set_version
     tree, files = build_project(pat, old, fmt, files, entries, explicit_cfg)
     world.clear_dir(".")
     world.write_tree(tree)
@@ -153,6 +163,8 @@ def run_project(st, pat, label, old, new, fmt, lid, arrangement, files, entries,
     st.transitions += 1
     after = world.read_tree(".")
     case = {"pattern": pat.text, "states": label, "old": old_text, "new": new_text, "format": fmt, "layout": lid}
+    if set_version is not None:
+        case["respelled"] = True
     st.observe((case, o.exit, o.crashed, sorted(after.items())))
     st.state(sorted(after.items()))
     if o.exit != 0:
@@ -170,6 +182,11 @@ def run_project(st, pat, label, old, new, fmt, lid, arrangement, files, entries,
         for kind, why in f.compare_new(content, new, announced or new_text):
             if kind in want:
                 problems.append((kind, f.name, why))
+        if set_version is not None and announced is not None:
+            # {version} occurrences must EQUAL the announced version (statement), not merely denote it
+            for (_i, _j, fp) in f.occurrences():
+                if fp.raw == "{version}" and announced not in content:
+                    problems.append(("occurrence", f.name, f"announced {announced!r} but the file holds another spelling"))
     if "occurrence" in want:
         cfgv = pt.read_config_version(fmt, after[fmt].decode("utf-8", "replace"))
         if cfgv != announced:
@@ -205,7 +222,10 @@ def replay(case, st):
             if pat.text == case["pattern"] and label == case["states"]:
                 for lid, arrangement, files, entries, explicit_cfg in layouts(pat, old, new, tr, case["format"]):
                     if lid == case["layout"]:
-                        run_project(st, pat, label, old, new, case["format"], lid, arrangement, files, entries, explicit_cfg)
+                        if case.get("respelled"):
+                            arrangement = "set-version-respelled"
+                        run_project(st, pat, label, old, new, case["format"], lid, arrangement, files, entries, explicit_cfg,
+                                    set_version=case["new"] if case.get("respelled") else None)
                         os.chdir("/")
                         return
     os.chdir("/")
